@@ -118,7 +118,12 @@ def check_encoding(out, params):
                 out.fail("encoding", "encoding:bytes_value_not_restored", {"value": val.hex()[:100], "encoded": v[:200]})
                 return enc
         else:
-            back = urllib.parse.unquote(v, encoding="utf-8", errors="strict")
+            try:
+                back = urllib.parse.unquote(v, encoding="utf-8", errors="strict")
+            except UnicodeDecodeError as e:
+                # a standard decoder cannot read the value at all
+                out.fail("encoding", "encoding:value_not_decodable", {"value": repr(val)[:100], "encoded": v[:200], "error": str(e)[:100]})
+                return enc
             if back != str(val):
                 out.fail("encoding", "encoding:value_not_restored", {"value": repr(val)[:100], "encoded": v[:200], "back": repr(back)[:100]})
                 return enc
